@@ -212,9 +212,14 @@ func nbQuery(id uint16, name string) []byte {
 // nbOpPacket builds a registration-shaped packet (question + the RR in both the answer and
 // the additional section, so that a handler sees it whichever section it reads).
 func nbOpPacket(id uint16, opcode int, name string, ip net.IP, ttl uint32) []byte {
+	return nbOpPacketFlags(id, opcode, 0x0100, name, ip, ttl)
+}
+
+// nbOpPacketFlags: the same with the header bits outside OPCODE (and R, RCODE) chosen by the caller.
+func nbOpPacketFlags(id uint16, opcode int, bg uint16, name string, ip net.IP, ttl uint32) []byte {
 	n := &nbtns.NetBIOSName{Name: name}
 	rr := nbtns.NBTNSResourceRecord{Name: n, Type: 0x20, Class: 1, TTL: ttl, RDLength: uint16(len(ip)), RData: ip}
-	p := &nbtns.NBTNSPacket{Header: nbtns.NBTNSHeader{TransactionID: id, Flags: uint16(opcode)<<11 | 0x0100, Questions: 1, Answers: 1, Additional: 1},
+	p := &nbtns.NBTNSPacket{Header: nbtns.NBTNSHeader{TransactionID: id, Flags: uint16(opcode)<<11 | bg&0x07F0, Questions: 1, Answers: 1, Additional: 1},
 		Questions: []nbtns.NBTNSQuestion{{Name: n, Type: 0x20, Class: 1}}, Answers: []nbtns.NBTNSResourceRecord{rr}, Additional: []nbtns.NBTNSResourceRecord{rr}}
 	b, err := p.Marshal()
 	if err != nil {
@@ -513,7 +518,7 @@ func nbExchange(kind string, addr net.Addr, pkt []byte) ([]byte, bool) {
 	for try := 0; try < 3; try++ {
 		conn.Write(pkt)
 		conn.SetReadDeadline(time.Now().Add(2 * time.Second))
-		buf := make([]byte, 2048)
+		buf := make([]byte, 65536)
 		n, err := conn.Read(buf)
 		if err == nil {
 			return buf[:n], true
@@ -619,7 +624,145 @@ func nbOpcodes(kind string) {
 			nontrivial(fmt.Sprintf("opcode|%s|%d", kind, op))
 		}
 	}
+	// routing is by the OPCODE field alone: the other header bits of a request (AA, TC, RD, RA,
+	// the two reserved bits, B) in every background must not change which handler runs
+	for bi, bg := range []uint16{0x0000, 0x0110, 0x0010, 0x0080, 0x0180, 0x0090, 0x0500, 0x0300, 0x0140, 0x0120, 0x07F0} {
+		for _, op := range []int{5, 6, 8, 0, 7, 15} {
+			held1, new1 := fmt.Sprintf("B%02dO%02dHELD", bi, op), fmt.Sprintf("B%02dO%02dNEW", bi, op)
+			table.RegisterName(held1, nbtns.Unique, ipA, time.Hour)
+			key := fmt.Sprintf("opcode.%s:%d:flag-background", kind, op)
+			cs := map[string]any{"server": kind, "opcode": op, "other_header_bits": fmt.Sprintf("%#04x", bg)}
+			id++
+			pa := nbOpPacketFlags(id, op, bg, new1, ipB, 3600)
+			ra, ok := nbExchange(kind, addr, pa)
+			evals.Add(1)
+			cs["packet"] = hex.EncodeToString(pa)
+			if ok && len(ra) >= 2 && binary.BigEndian.Uint16(ra) != id {
+				viol(key+":wrong-id", "response carries another transaction id", cs)
+			}
+			if !ok && (op == 5 || op == 6 || op == 8) {
+				viol(key+":no-response", fmt.Sprintf("no response to opcode %d with header bits %#04x", op, bg), cs)
+			}
+			_, nowHeld := held(new1)
+			if op == 5 && !nowHeld {
+				viol(key+":registration-not-routed", fmt.Sprintf("a NAME REGISTRATION REQUEST (opcode 5) with header bits %#04x did not register the name", bg), cs)
+			}
+			if op != 5 && nowHeld {
+				viol(key+":routed-to-registration", fmt.Sprintf("opcode %d with header bits %#04x registered a name", op, bg), cs)
+			}
+			id++
+			nbExchange(kind, addr, nbOpPacketFlags(id, op, bg, held1, ipA, 3600))
+			evals.Add(1)
+			o, still := held(held1)
+			if op == 6 && still {
+				viol(key+":release-not-routed", fmt.Sprintf("a NAME RELEASE REQUEST (opcode 6) with header bits %#04x by the owner did not release the name", bg), cs)
+			}
+			if op != 6 && (!still || !o.Equal(ipA)) {
+				viol(key+":routed-to-release", fmt.Sprintf("opcode %d with header bits %#04x removed or changed a held name", op, bg), cs)
+			}
+			nontrivial(fmt.Sprintf("opcode-bg|%s|%d|%#x", kind, op, bg))
+		}
+	}
 	emit(childLine{T: "s", V: map[string]any{"scenario": "opcodes/" + kind, "opcodes": 16, "example_registration_packet": hex.EncodeToString(nbOpPacket(1, 5, "EXAMPLE", ipB, 60))}})
+}
+
+// ------------------------------------------------------------------ NBNS group names of every size
+
+// nbGroups: a name query for a group of n members is answered under the request's own id with
+// exactly the members' addresses — also when the response outgrows 576 octets (10 members and
+// more), where it may instead be cut and flagged truncated, but still under that id and with
+// members of that group only.
+func nbGroups(kind string) {
+	srv, table, err := newNB(kind)
+	if err != nil {
+		inconclusive("groups/" + kind + ": " + err.Error())
+		return
+	}
+	sizes := []int{1, 2, 8, 9, 10, 11, 12, 16, 25, 40}
+	member := func(g, k int) net.IP { return net.IPv4(10, 20, byte(g), byte(k+1)) } // 16-byte form, as the API stores it
+	for gi, n := range sizes {
+		for k := 0; k < n; k++ {
+			table.RegisterName(fmt.Sprintf("GROUP%02d", gi), nbtns.Group, member(gi, k), time.Hour)
+		}
+	}
+	tr.reset(0)
+	if err := srv.Start(); err != nil {
+		inconclusive("groups/" + kind + ": start: " + err.Error())
+		return
+	}
+	defer within(progressLimit, srv.Stop)
+	addr := srv.VerifAddr()
+	for round := 0; round < pick(3, 30); round++ {
+		for gi, n := range sizes {
+			id := uint16(0x7000 + round*64 + gi)
+			name := fmt.Sprintf("GROUP%02d", gi)
+			raw, ok := nbExchange(kind, addr, nbQuery(id, name))
+			evals.Add(1)
+			cs := map[string]any{"server": kind, "group_members": n, "request_id": id, "response": hex.EncodeToString(raw)}
+			key := "nbns." + kind + ":group"
+			if !ok {
+				viol(key+":unanswered", fmt.Sprintf("a query for a group of %d members got no response", n), cs)
+				continue
+			}
+			if len(raw) < 12 || binary.BigEndian.Uint16(raw) != id {
+				viol(key+":foreign-id", fmt.Sprintf("the response to a query for a group of %d members (%d octets) carries transaction id %#04x, the request had %#04x", n, len(raw), binary.BigEndian.Uint16(raw), id), cs)
+				continue
+			}
+			var resp nbtns.NBTNSPacket
+			p, _, _ := mon.Guard(func() { _, err = resp.Unmarshal(raw) })
+			// flagged truncated, or cut at the 576-octet datagram limit of RFC 1002 (the UDP server
+			// cuts without setting TC: observed, not judged — C18 is about ids and answers)
+			truncated := len(raw) >= 4 && raw[2]&0x02 != 0 || (kind != "TCPServer" && len(raw) >= 576)
+			if truncated {
+				count("group_responses_cut_at_the_datagram_limit", 1)
+			}
+			if p || err != nil {
+				if !truncated {
+					viol(key+":response-unparseable", fmt.Sprintf("group of %d members: the library's own decoder cannot read the response: %v", n, err), cs)
+				}
+				continue
+			}
+			if resp.Header.Flags&0x8000 == 0 || resp.Header.Flags&0x000F != 0 {
+				viol(key+":not-a-positive-response", fmt.Sprintf("group of %d members: flags %#04x", n, resp.Header.Flags), cs)
+				continue
+			}
+			seen := map[string]bool{}
+			bad := ""
+			for _, a := range resp.Answers {
+				if a.Name == nil || a.Name.Name != name {
+					bad = "an answer for another name"
+					break
+				}
+				rd := a.RData
+				for len(rd) >= 4 {
+					ip := net.IP(rd[len(rd)-4:]) // the address is the tail of each entry, whatever precedes it
+					if len(a.RData)%6 == 0 && len(a.RData) >= 6 {
+						ip = net.IP(rd[2:6])
+						rd = rd[6:]
+					} else if len(a.RData) == 16 {
+						ip = net.IP(rd[12:16])
+						rd = nil
+					} else {
+						rd = rd[:len(rd)-4]
+						if len(a.RData) == 4 {
+							rd = nil
+						}
+					}
+					if !(ip[0] == 10 && ip[1] == 20 && int(ip[2]) == gi && int(ip[3]) >= 1 && int(ip[3]) <= n) {
+						bad = fmt.Sprintf("address %v is not a member of the group", ip)
+					}
+					seen[ip.String()] = true
+				}
+			}
+			switch {
+			case bad != "":
+				viol(key+":cross-talk", fmt.Sprintf("group of %d members: %s", n, bad), cs)
+			case len(seen) != n && !truncated:
+				viol(key+":members", fmt.Sprintf("group of %d members: the response (not flagged truncated) names %d distinct members", n, len(seen)), cs)
+			}
+			nontrivial(fmt.Sprintf("group|%s|%d", kind, n))
+		}
+	}
 }
 
 // ------------------------------------------------------------------ NBNS shutdown trials
@@ -1003,6 +1146,96 @@ func llmnrShutdown(trials int) {
 	}
 }
 
+// padTo returns the encoding of m with an additional TXT record sized so that the whole message
+// is exactly size octets (nil if that cannot be reached).
+func padTo(m *llmnr.Message, size int) []byte {
+	pad := llmnr.ResourceRecord{Name: "pad.example", Type: 16, Class: 1}
+	m.Additional = append(m.Additional, pad)
+	m.ARCount = uint16(len(m.Additional))
+	k := len(m.Additional) - 1
+	for try := 0; try < 4; try++ {
+		b, err := m.Encode()
+		if err != nil {
+			return nil
+		}
+		if len(b) == size {
+			return b
+		}
+		n := len(m.Additional[k].RData) + size - len(b)
+		if n < 0 {
+			return nil
+		}
+		m.Additional[k].RData = bytes.Repeat([]byte{0x2E}, n)
+		m.Additional[k].RDLength = uint16(n)
+	}
+	return nil
+}
+
+// llmnrSizes: queries of every size up to the 512-octet MaxPacketSize are answered under their id.
+func llmnrSizes() {
+	srv, sconn, done, err := startLLMNR()
+	if err != nil {
+		inconclusive("llmnr-sizes: " + err.Error())
+		return
+	}
+	defer func() {
+		within(progressLimit, func() { srv.Close() })
+		select {
+		case <-done:
+		case <-time.After(progressLimit):
+		}
+	}()
+	conn, err := net.DialUDP("udp4", nil, sconn.LocalAddr().(*net.UDPAddr))
+	if err != nil {
+		return
+	}
+	defer conn.Close()
+	baseline := false
+	for i, size := range []int{0, 100, 300, 500, 510, 511, 512} {
+		q := llmnr.NewMessage()
+		q.ID = uint16(0x6100 + i)
+		q.SetQuery()
+		q.AddQuestion(llName(7, i), llmnr.TypeA, llmnr.ClassIN)
+		b, _ := q.Encode()
+		if size > 0 {
+			if b = padTo(q, size); b == nil {
+				inconclusive(fmt.Sprintf("llmnr-sizes: cannot build a %d-octet query", size))
+				continue
+			}
+		}
+		answered := false
+		buf := make([]byte, 4096)
+		for attempt := 0; attempt < 4 && !answered; attempt++ {
+			conn.Write(b)
+			conn.SetReadDeadline(time.Now().Add(time.Second))
+			for {
+				n, err := conn.Read(buf)
+				if err != nil {
+					break
+				}
+				if m, err := llmnr.DecodeMessage(append([]byte{}, buf[:n]...)); err == nil && m.ID == q.ID {
+					answered = true
+					if len(m.Answers) != 1 || m.Answers[0].Name != llName(7, i) || net.IP(m.Answers[0].RData).String() != llIP(7, i) {
+						viol("llmnr.Server:cross-talk", fmt.Sprintf("a %d-octet query for %s is answered with %+v", len(b), llName(7, i), m.Answers), map[string]any{"query": hex.EncodeToString(b)})
+					}
+					break
+				}
+			}
+		}
+		evals.Add(1)
+		switch {
+		case answered && size == 0:
+			baseline = true
+		case !answered && size == 0:
+			inconclusive("llmnr-sizes: the plain query is not answered (environment)")
+			return
+		case !answered && baseline:
+			viol("llmnr.Server:query-unanswered:size", fmt.Sprintf("a well-formed query of %d octets (MaxPacketSize is 512) got no response in four attempts; the same query without padding is answered", len(b)), map[string]any{"size": len(b), "query": hex.EncodeToString(b)})
+		}
+		nontrivial(fmt.Sprintf("llmnr-size|%d", size))
+	}
+}
+
 // ------------------------------------------------------------------ LLMNR client vs scripted responder
 
 func llmnrClient() {
@@ -1053,6 +1286,20 @@ func llmnrClient() {
 			good := mkResp(q.ID, name, ipForName(name), true)
 			// release anything held by an earlier "late"/"swap" query first or after, per script
 			switch {
+			case strings.HasPrefix(name, "big"):
+				// the same answer in a message of exactly 300 / 511 / 512 octets
+				var size int
+				fmt.Sscanf(name, "big%d-", &size)
+				m := llmnr.NewMessage()
+				m.ID = q.ID
+				m.AddQuestion(name, llmnr.TypeA, llmnr.ClassIN)
+				m.AddAnswerClassINTypeA(name, ipForName(name))
+				m.SetResponse()
+				if b := padTo(m, size); b != nil {
+					resp.WriteToUDP(b, from)
+				} else {
+					resp.WriteToUDP(good, from)
+				}
 			case strings.HasPrefix(name, "ok"):
 				resp.WriteToUDP(good, from)
 			case strings.HasPrefix(name, "dup"):
@@ -1091,7 +1338,7 @@ func llmnrClient() {
 		return
 	}
 	cl.Timeout = 400 * time.Millisecond
-	kinds := []string{"ok", "dup", "foreign", "query", "late", "swap", "none", "ok", "swap", "late"}
+	kinds := []string{"ok", "dup", "foreign", "query", "late", "swap", "none", "ok", "swap", "late", "big300", "big511", "big512"}
 	G := pick(6, 12)
 	per := pick(25, 300)
 	var wg sync.WaitGroup
@@ -1107,6 +1354,20 @@ func llmnrClient() {
 				asked := name
 				if i%5 == 4 && (kind == "ok" || kind == "dup" || kind == "foreign" || kind == "query") { // scripts that answer at once
 					asked = name + "." // the fully-qualified spelling of the same name
+				}
+				if strings.HasPrefix(kind, "big") {
+					// answered at once with a message of a chosen size: judged like the scripts above
+					var m *llmnr.Message
+					var err error
+					p := false
+					for attempt := 0; attempt < 4 && (m == nil || err != nil) && !p; attempt++ {
+						p, _, _ = mon.Guard(func() { m, err = cl.Query(context.Background(), name, llmnr.TypeA) })
+					}
+					evals.Add(1)
+					if !p && (err != nil || m == nil) {
+						viol("llmnr.Client.Query:sized-response-not-delivered", fmt.Sprintf("Query(%q) returned %v in four attempts although the responder answers at once with a well-formed message of %s octets", name, err, kind[3:]), map[string]any{"query_name": name, "script": kind})
+						continue
+					}
 				}
 				var m *llmnr.Message
 				var err error
@@ -1324,6 +1585,9 @@ func child() {
 	for _, kind := range []string{"Server", "UDPServer", "TCPServer"} {
 		nbOpcodes(kind)
 	}
+	for _, kind := range []string{"Server", "UDPServer", "TCPServer"} {
+		nbGroups(kind)
+	}
 	runs := pick(2, 12)
 	for _, kind := range []string{"Server", "UDPServer"} {
 		for _, nc := range []int{2, 4, 8, 16} {
@@ -1349,6 +1613,7 @@ func child() {
 	for _, kind := range []string{"Server", "UDPServer", "TCPServer"} {
 		nbShutdown(kind, pick(60, 1500))
 	}
+	llmnrSizes()
 	llmnrShutdown(pick(60, 1500))
 	llmnrCloseFromHandler(pick(12, 200))
 	nbChallenges()
